@@ -14,7 +14,6 @@ package index
 //@ func index.(*ShardBuilder).Add
 //@   may_panic
 //@   flag narrow=uint16
-//@   requires b != nil
 //@   loop 1:
 //@     invariant true
 //@   loop 2:
